@@ -38,6 +38,7 @@ type Lexer struct {
 	blockSum    int  // running sum of proposal lines incl. CR since the last F>
 	blockCount  int  // proposals since the last F>
 	handshaking bool // before this station has sent its first F command
+	errored     bool // the station has sent a "*** ..." error line: the rest is free-form error text
 	emit        func(Unit)
 	strictFW    bool
 }
@@ -78,7 +79,7 @@ func (lx *Lexer) line() int {
 			i = k
 			break
 		}
-		if b == 1 || b == 2 || b == 4 { // SOH/STX/EOT outside a transfer
+		if (b == 1 || b == 2 || b == 4) && !lx.errored && !(k >= 3 && string(lx.buf[:3]) == "***") { // SOH/STX/EOT outside a transfer
 			lx.bad(fmt.Sprintf("control byte %d in text", b), lx.buf[:k+1])
 			return k + 1
 		}
@@ -89,6 +90,15 @@ func (lx *Lexer) line() int {
 	raw := lx.buf[:i+1]
 	s := string(lx.buf[:i])
 	u := Unit{F: map[string]interface{}{"text": s}, Raw: append([]byte(nil), raw...)}
+	if lx.errored || strings.HasPrefix(s, "***") {
+		// error reporting is not defined by the protocol: a line prefixed "***" and whatever free text follows it
+		// (the station is about to disconnect) is judged by its prefix only
+		lx.errored = lx.errored || !lx.handshaking
+		u.Kind = "Err"
+		u.F["text"] = fmt.Sprintf("%q", s)
+		lx.emit(u)
+		return i + 1
+	}
 	for _, c := range []byte(s) {
 		if c == '\n' || c == 0 || c >= 0x80 {
 			lx.bad("non-ASCII, NUL or LF in a protocol line", raw)
@@ -163,6 +173,7 @@ func (lx *Lexer) line() int {
 			return i + 1
 		}
 		u.Kind = "Prop"
+		lx.handshaking = false
 		u.F["code"], u.F["type"], u.F["mid"] = m[1], m[2], m[3]
 		u.F["size"], _ = strconv.Atoi(m[4])
 		u.F["csize"], _ = strconv.Atoi(m[5])
@@ -189,6 +200,7 @@ func (lx *Lexer) line() int {
 			return i + 1
 		}
 		u.Kind = "Fs"
+		lx.handshaking = false
 		var ans []string
 		var offs []int
 		rest := s[3:]
@@ -219,8 +231,10 @@ func (lx *Lexer) line() int {
 		u.F["answers"], u.F["offsets"] = ans, offs
 	case s == "FF":
 		u.Kind = "FF"
+		lx.handshaking = false
 	case s == "FQ":
 		u.Kind = "FQ"
+		lx.handshaking = false
 	case len(s) >= 1 && s[0] == 'F':
 		lx.bad("unknown F command", raw)
 		return i + 1
@@ -288,6 +302,8 @@ func (lx *Lexer) frame() int {
 		hdrOK = false
 	}
 	f["hdrOK"], f["title"], f["offset"] = hdrOK, title, off
+	// structure only (length arithmetic, NULs, numeric offset), whatever bytes the title consists of
+	f["hdrStruct"] = len(parts) == 3 && parts[2] == "" && len(parts[0]) >= 1 && err == nil && off >= 0 && len(parts[1]) >= 1
 	pos := 2 + hl
 	var data []byte
 	var chunks []int
